@@ -8,7 +8,7 @@
      a function that can raise returns [res T] ([Ok v] / [Raise exn]).
    Comparisons are emitted in normal form: only [<=?], [<?], [=?] on Z ([a >= b] becomes [b <=? a])
    and only [Qle_bool], [Qltb], [Qeq_bool] on Q. *)
-From Coq Require Import ZArith QArith Qround Qabs Qminmax List Bool String Lia Lra ZifyBool.
+From Coq Require Import ZArith QArith Qround Qabs Qminmax List Bool String Lia Lqa ZifyBool.
 Import ListNotations.
 
 Inductive pyexn :=
